@@ -2486,7 +2486,7 @@ static R MPSgetRHS(R left, R right)
    else if(right <  R(infinity))
       rhsval = right;
    else
-      throw SPxInternalCodeException("XMPSWR01 This should never happen.");
+      rhsval = R(-infinity);   // free row, written as G row
 
    return rhsval;
 }
@@ -2561,7 +2561,7 @@ void SPxLPBase<R>::writeMPS(
       else if(rhs(i) <  R(infinity))
          indicator = "L";
       else
-         throw SPxInternalCodeException("XMPSWR02 This should never happen.");
+         indicator = "G";   // free row: a x >= -infinity
 
       MPSwriteRecord<R>(p_output, indicator, MPSgetRowName(*this, i, p_rnames, name));
    }
